@@ -20,6 +20,13 @@ Every statement in a seq is followed by a `$?` probe when probes=True.
 PRELUDE = r'''e() { echo "@m $1"; return $2; }
 '''
 
+# Variant whose markers and probes bypass pipes and command substitutions (fd 3 = the script's stdout), used where
+# programs contain pipelines / $( ): every marker stays observable and stage order is made deterministic by draining stdin.
+PRELUDE3 = r'''exec 3>&1
+e() { echo "@m $1" >&3; return $2; }
+'''
+STYLE = {"probe": 'echo "@? $?"', "case_paren": False}
+
 
 class Gen:
     def __init__(self, rng, max_depth=4, max_nodes=30, constructs=None, allow_ctl=True, funcs=True,
@@ -168,12 +175,13 @@ def render(node, probes=True, ind=0, style=None):
         for n in node[1]:
             out.append(render(n, probes, ind))
             if probes and n[0] != "ctl":
-                out.append('echo "@? $?"')
+                out.append(STYLE["probe"])
         return ("\n" + sp).join(out)
-    if k == "and":
-        return "%s && %s" % (render_op(node[1], probes, ind), render_op(node[2], probes, ind))
-    if k == "or":
-        return "%s || %s" % (render_op(node[1], probes, ind), render_op(node[2], probes, ind))
+    if k in ("and", "or"):
+        # && and || are left-associative with equal precedence: a left operand that is itself an and-or list is
+        # rendered flat (`a && b || c`), which is how multi-operand chains are written; a right operand needs braces.
+        left = render(node[1], probes, ind) if node[1][0] in ("and", "or") else render_op(node[1], probes, ind)
+        return "%s %s %s" % (left, "&&" if k == "and" else "||", render_op(node[2], probes, ind))
     if k == "not":
         return "! %s" % render_op(node[1], probes, ind, in_not=True)
     if k == "if":
@@ -199,7 +207,8 @@ def render(node, probes=True, ind=0, style=None):
     if k == "case":
         s = "case %s in\n" % node[1]
         for pats, body, term in node[2]:
-            s += "%s  %s)\n%s    %s\n%s    %s\n" % (sp, "|".join(pats), sp, render(body, probes, ind + 2), sp, term)
+            s += "%s  %s%s)\n%s    %s\n%s    %s\n" % (sp, "(" if STYLE["case_paren"] else "", "|".join(pats), sp,
+                                                    render(body, probes, ind + 2), sp, term)
         return s + sp + "esac"
     if k == "group":
         return "{\n%s  %s\n%s}" % (sp, render(node[1], probes, ind + 1), sp)
@@ -211,8 +220,20 @@ def render(node, probes=True, ind=0, style=None):
         return node[1] if node[2] is None else "%s %s" % (node[1], node[2])
     if k == "raw":
         return node[1]
+    if k == "wrap":
+        inner = render(node[3], probes, ind + 1)
+        if node[1] == "eval":
+            inner = render(node[3], probes, 0)
+        return node[2].replace("{}", inner)
     if k == "pipe":
-        return " | ".join(render_op(n, probes, ind) for n in node[1])
+        parts = []
+        for i, n in enumerate(node[1]):
+            t = render_op(n, probes, ind)
+            if i > 0:
+                # later stages wait for EOF from the previous one: deterministic marker order, no SIGPIPE races
+                t = "{ cat >/dev/null; %s\n%s}" % (t, "  " * ind)
+            parts.append(t)
+        return " | ".join(parts)
     raise ValueError(k)
 
 
@@ -271,6 +292,8 @@ def walk(node):
     elif k == "pipe":
         for n in node[1]:
             yield from walk(n)
+    elif k == "wrap":
+        yield from walk(node[3])
 
 
 def shrink_candidates(node):
@@ -305,6 +328,10 @@ def shrink_candidates(node):
         children = [b for _, b, _ in node[2]]
     elif k in ("group", "subshell"):
         children = [node[1]]
+    elif k == "wrap":
+        children = [node[3]]
+    elif k == "pipe":
+        children = list(node[1])
     for c in children:
         yield c
     yield ("leaf", "mx", 0)
@@ -363,6 +390,17 @@ def shrink_candidates(node):
     elif k in ("group", "subshell"):
         for c in shrink_candidates(node[1]):
             yield (k, c)
+    elif k == "wrap":
+        for c in shrink_candidates(node[3]):
+            yield ("wrap", node[1], node[2], c)
+    elif k == "pipe":
+        st = node[1]
+        if len(st) > 2:
+            for i in range(len(st)):
+                yield ("pipe", st[:i] + st[i + 1:])
+        for i, n in enumerate(st):
+            for c in shrink_candidates(n):
+                yield ("pipe", st[:i] + [c] + st[i + 1:])
 
 
 def shrink(body, funcs, still_fails, budget=150):
